@@ -20,6 +20,8 @@ structure IEEELaws (F : Type) [Num F] where
   fin : F → Prop
   nan : F → Prop
   cnt : F → Prop
+  /-- sign bit clear and not NaN: +0, a positive finite value or +∞ -/
+  sp : F → Prop
   fin_not_nan : ∀ x, fin x → ¬ nan x
   /-- `std::isfinite` decides finiteness -/
   isFinite_iff : ∀ x, isFinite x = true ↔ fin x
@@ -31,8 +33,13 @@ structure IEEELaws (F : Type) [Num F] where
   penalty_nn : nn (penalty : F)
   c200_fin : fin c200
   c200_nn : nn (c200 : F)
-  /-- NaN is the only result of `fabs` that is not ≥ 0 -/
-  abs_nn : ∀ x, ¬ nan (abs x) → nn (abs x)
+  c100_sp : sp c100
+  c200_sp : sp c200
+  two_sp : sp two
+  /-- a sign-positive value compares ≥ 0 -/
+  sp_nn : ∀ x, sp x → nn x
+  /-- `fabs` clears the sign bit (its only other result is NaN) -/
+  abs_sp : ∀ x, ¬ nan (abs x) → sp (abs x)
   /-- `fabs`, `*`, `+`, `/` propagate NaN operands -/
   abs_nan : ∀ x, nan x → nan (abs x)
   mul_nan : ∀ x y, nan x ∨ nan y → nan (mul x y)
@@ -40,11 +47,15 @@ structure IEEELaws (F : Type) [Num F] where
   div_nan : ∀ x y, nan x ∨ nan y → nan (div x y)
   /-- a square is ≥ 0 or NaN -/
   mul_self_nn : ∀ x, ¬ nan (mul x x) → nn (mul x x)
-  /-- products and sums of values ≥ 0 are ≥ 0 or NaN (0·∞) -/
-  mul_nn : ∀ x y, nn x → nn y → ¬ nan (mul x y) → nn (mul x y)
-  add_nn : ∀ x y, nn x → nn y → ¬ nan (add x y) → nn (add x y)
-  /-- a FINITE quotient of values ≥ 0 is ≥ 0 (x / −0 is ±∞ or NaN, never finite) -/
-  div_nn : ∀ x y, nn x → nn y → fin (div x y) → nn (div x y)
+  /-- products, sums and quotients of sign-positive values are sign-positive or NaN
+      (0·∞, 0/0, ∞/∞) -/
+  mul_sp : ∀ x y, sp x → sp y → ¬ nan (mul x y) → sp (mul x y)
+  add_sp : ∀ x y, sp x → sp y → ¬ nan (add x y) → sp (add x y)
+  div_sp : ∀ x y, sp x → sp y → ¬ nan (div x y) → sp (div x y)
+  /-- a comparison that holds has no NaN operand -/
+  le_not_nan : ∀ x y, le x y = true → ¬ nan x ∧ ¬ nan y
+  /-- `0 ≤ x ≤ y`, `y` finite: `x` is finite -/
+  fin_of_le : ∀ x y, nn x → fin y → le x y = true → fin x
   /-- `++n` from 0.0 -/
   cnt_one : cnt (add zero one)
   cnt_succ : ∀ n, cnt n → cnt (add n one)
@@ -99,7 +110,7 @@ theorem maeErr_fin_nn (o : Option F) (t : F) : L.fin (maeErr o t) ∧ nn (maeErr
     split
     · rename_i h
       have hf := (L.isFinite_iff _).mp h
-      exact ⟨hf, L.abs_nn _ (L.fin_not_nan _ hf)⟩
+      exact ⟨hf, L.sp_nn _ (L.abs_sp _ (L.fin_not_nan _ hf))⟩
     · exact ⟨L.penalty_fin, L.penalty_nn⟩
 
 theorem mseErr_fin_nn (o : Option F) (t : F) : L.fin (mseErr o t) ∧ nn (mseErr o t) := by
@@ -124,7 +135,8 @@ theorem rmaeErr_fin_nn (o : Option F) (t : F) : L.fin (rmaeErr o t) ∧ nn (rmae
     · exact ⟨L.zero_fin, L.zero_nn⟩
     · split
       · rename_i h
-        have hf := (L.isFinite_iff _).mp h
+        simp only [Bool.and_eq_true] at h
+        have hf := (L.isFinite_iff _).mp h.2
         refine ⟨hf, ?_⟩
         have hq := L.fin_not_nan _ hf
         have hnum : ¬ L.nan (mul c200 (abs (sub t a))) := fun hn => hq (L.div_nan _ _ (Or.inl hn))
@@ -132,9 +144,27 @@ theorem rmaeErr_fin_nn (o : Option F) (t : F) : L.fin (rmaeErr o t) ∧ nn (rmae
         have hd : ¬ L.nan (abs (sub t a)) := fun hn => hnum (L.mul_nan _ _ (Or.inr hn))
         have ha : ¬ L.nan (abs a) := fun hn => hden (L.add_nan _ _ (Or.inl hn))
         have ht : ¬ L.nan (abs t) := fun hn => hden (L.add_nan _ _ (Or.inr hn))
-        exact L.div_nn _ _ (L.mul_nn _ _ L.c200_nn (L.abs_nn _ hd) hnum)
-          (L.add_nn _ _ (L.abs_nn _ ha) (L.abs_nn _ ht) hden) hf
-      · exact ⟨L.c200_fin, L.c200_nn⟩
+        exact L.sp_nn _ (L.div_sp _ _ (L.mul_sp _ _ L.c200_sp (L.abs_sp _ hd) hnum)
+          (L.add_sp _ _ (L.abs_sp _ ha) (L.abs_sp _ ht) hden) hq)
+      · split
+        · rename_i h2
+          have he := (L.le_not_nan _ _ h2).1
+          have hq : ¬ L.nan (div (abs (sub t a)) (add (div (abs a) two) (div (abs t) two))) :=
+            fun hn => he (L.mul_nan _ _ (Or.inr hn))
+          have hd : ¬ L.nan (abs (sub t a)) := fun hn => hq (L.div_nan _ _ (Or.inl hn))
+          have hs : ¬ L.nan (add (div (abs a) two) (div (abs t) two)) :=
+            fun hn => hq (L.div_nan _ _ (Or.inr hn))
+          have ha2 : ¬ L.nan (div (abs a) two) := fun hn => hs (L.add_nan _ _ (Or.inl hn))
+          have ht2 : ¬ L.nan (div (abs t) two) := fun hn => hs (L.add_nan _ _ (Or.inr hn))
+          have ha : ¬ L.nan (abs a) := fun hn => ha2 (L.div_nan _ _ (Or.inl hn))
+          have ht : ¬ L.nan (abs t) := fun hn => ht2 (L.div_nan _ _ (Or.inl hn))
+          have hsp := L.mul_sp _ _ L.c100_sp
+            (L.div_sp _ _ (L.abs_sp _ hd)
+              (L.add_sp _ _ (L.div_sp _ _ (L.abs_sp _ ha) L.two_sp ha2)
+                (L.div_sp _ _ (L.abs_sp _ ht) L.two_sp ht2) hs) hq) he
+          have hnn := L.sp_nn _ hsp
+          exact ⟨L.fin_of_le _ _ hnn L.c200_fin h2, hnn⟩
+        · exact ⟨L.c200_fin, L.c200_nn⟩
 
 theorem countErr_fin_nn (o : Option F) (t : F) : L.fin (countErr o t) ∧ nn (countErr o t) := by
   unfold countErr
@@ -149,6 +179,7 @@ def ratLaws : IEEELaws Rat where
   fin _ := True
   nan _ := False
   cnt n := 1 ≤ n
+  sp x := 0 ≤ x
   fin_not_nan := by simp
   isFinite_iff := by simp
   zero_fin := trivial
@@ -159,15 +190,21 @@ def ratLaws : IEEELaws Rat where
   penalty_nn := by have := penalty_pos; simp [nn]; grind
   c200_fin := trivial
   c200_nn := by simp [nn]; grind
-  abs_nn := by simp [nn]
+  c100_sp := by show (0:Rat) ≤ 100; grind
+  c200_sp := by show (0:Rat) ≤ 200; grind
+  two_sp := by show (0:Rat) ≤ 2; grind
+  sp_nn := by intro x h; simpa [nn] using h
+  abs_sp := by simp
   abs_nan := by simp
   mul_nan := by simp
   add_nan := by simp
   div_nan := by simp
   mul_self_nn := by intro x _; simpa [nn] using mul_self_nonneg x
-  mul_nn := by intro x y hx hy _; simp [nn] at *; exact Rat.mul_nonneg hx hy
-  add_nn := by intro x y hx hy _; simp [nn] at *; exact Rat.add_nonneg hx hy
-  div_nn := by intro x y hx hy _; simp [nn] at *; exact div_nonneg' x y hx hy
+  mul_sp := by intro x y hx hy _; exact Rat.mul_nonneg hx hy
+  add_sp := by intro x y hx hy _; exact Rat.add_nonneg hx hy
+  div_sp := by intro x y hx hy _; exact div_nonneg' x y hx hy
+  le_not_nan := by simp
+  fin_of_le := by simp
   cnt_one := by simp; grind
   cnt_succ := by intro n h; simp at *; grind
   mean_first := by intro e _ he; simp [nn] at *; grind
